@@ -115,6 +115,19 @@ fn scalar_from(j: &J) -> ScalarCow<'static> {
         "i64" => ScalarCow::new(bits as i64),
         "f64" => ScalarCow::new(f64::from_bits(bits)),
         "bool" => ScalarCow::new(bits & 1 == 1),
+        "datetime" => {
+            let g = |k: &str| j.get(k).and_then(|v| v.as_i64()).unwrap_or(0);
+            let base = liquid_core::model::DateTime::from_ymd(2020, 6, 15);
+            let t = *base + time::Duration::days(g("days")) + time::Duration::seconds(g("secs"));
+            let mut a = base;
+            *a = t.to_offset(time::UtcOffset::from_hms(g("off") as i8, 0, 0).unwrap());
+            ScalarCow::new(a)
+        }
+        "date" => {
+            let mut d = liquid_core::model::Date::from_ymd(2020, 6, 15);
+            *d = *d + time::Duration::days(j.get("days").and_then(|v| v.as_i64()).unwrap_or(0));
+            ScalarCow::new(d)
+        }
         _ => ScalarCow::new(j.get("text").and_then(|t| t.as_str()).unwrap_or("").to_owned()),
     }
 }
